@@ -292,4 +292,49 @@ theorem infoRow_counter (o : ROpts) (found total nsel : Nat) (hinfo : o.info = .
   · simp only [hi, if_false]
     rw [List.getElem?_eq_none (by omega)]
 
+/-- With --info=inline-right the counter sits at the right end of the prompt row (one margin cell
+    after it), and the prompt and the query are still at its start. -/
+theorem promptRow_inlineRight (o : ROpts) (input : Str) (found total nsel : Nat) (hinfo : o.info = .inlineRight)
+    (hp : o.prompt.length ≤ o.W - 2)
+    (hroom : o.prompt.length + input.length + 1 + (infoText o found total nsel).length + 3 ≤ o.W) :
+    ((promptRow o input found total nsel).drop (o.W - (infoText o found total nsel).length - 1)).take
+        (infoText o found total nsel).length = infoText o found total nsel ∧
+    (promptRow o input found total nsel).take (o.prompt.length + input.length) = o.prompt ++ input := by
+  unfold promptRow
+  rw [fit_of_le _ _ _ _ _ hp]
+  simp only [hinfo]
+  generalize infoText o found total nsel = txt at *
+  have hp1 : max (o.prompt.length + input.length + 1) (o.W - txt.length - 3) = o.W - txt.length - 3 := by omega
+  rw [hp1]
+  have h2 : o.W - txt.length - 3 < o.W := by omega
+  rw [if_pos h2]
+  have h3 : o.W - txt.length - 3 + 1 < o.W - 1 := by omega
+  rw [if_pos h3]
+  have htm : trimMessage txt (o.W - (o.W - txt.length - 3 + 1 + 1) - 1) = txt := by
+    unfold trimMessage; rw [if_pos (by omega)]
+  rw [htm]
+  have hcol : o.W - txt.length - 3 + 1 + 1 = o.W - txt.length - 1 := by omega
+  rw [hcol]
+  have hb : (rowOf o.W (o.prompt ++ input)).length = o.W := rowOf_length _ _
+  constructor
+  · apply List.ext_getElem?
+    intro i
+    rw [List.getElem?_take]
+    by_cases hi : i < txt.length
+    · simp only [hi, if_true]
+      rw [List.getElem?_drop, put_getElem?, put_length, hb, if_pos (by omega), if_neg (by omega), if_pos (by omega)]
+      congr 1; omega
+    · simp only [hi, if_false]
+      rw [List.getElem?_eq_none (by omega)]
+  · apply List.ext_getElem?
+    intro i
+    rw [List.getElem?_take]
+    by_cases hi : i < o.prompt.length + input.length
+    · simp only [hi, if_true]
+      rw [put_getElem?, put_length, hb, if_pos (by omega), if_pos (by omega)]
+      rw [put_getElem?, hb, if_pos (by omega), if_pos (by omega)]
+      rw [rowOf_getElem?, if_pos (by omega), if_pos (by simp; omega)]
+    · simp only [hi, if_false]
+      rw [List.getElem?_eq_none (by simp; omega)]
+
 end Fzf.Render
